@@ -565,6 +565,9 @@ class SafetyAnalyzer(ast.NodeVisitor):
         # Flag dangerous attribute access even without call
         if node.attr in self.REFLECTION_ATTRS:
             self._add(node, "reflection", f"dangerous attribute: {node.attr}")
+        elif isinstance(node.ctx, ast.Load) and node.attr in DANGEROUS_ATTRS:
+            # Any reference, not only a call: w = json.codecs.open; w(path, "w")
+            self._add(node, "method", f"dangerous method: {node.attr}")
 
         self.generic_visit(node)
 
@@ -573,6 +576,13 @@ class SafetyAnalyzer(ast.NodeVisitor):
         name = node.id
         if name in ("__builtins__", "__loader__", "__spec__"):
             self._add(node, "reflection", f"dangerous name: {name}")
+        elif (
+            isinstance(node.ctx, ast.Load)
+            and name in DANGEROUS_BUILTINS
+            and not (name == "print" and self.allow_print)
+        ):
+            # Any reference, not only a call: f = open; f(path, "w")
+            self._add(node, "builtin", f"dangerous builtin: {name}")
 
         self.generic_visit(node)
 
@@ -839,6 +849,12 @@ def classify(ctx: HandlerContext) -> Classification:
 
     # Check for -i (interactive after script) and - (program read from stdin)
     if "-i" in opts or "-" in opts:
+        return Classification("ask", description=desc)
+
+    # -x skips the first source line: what runs is not the text that is analysed
+    if any(
+        o.startswith("-") and not o.startswith("--") and "x" in o[1:] for o in opts
+    ):
         return Classification("ask", description=desc)
 
     # Find and analyze script
